@@ -226,14 +226,14 @@ class SpecModule:
         return c
 
     def lemma(self, name, vars, hyps, goal, induct=None, hints=(), properties=(), use=(), pattern=None, general=None, fuel=3, ih=None,
-              assumed=False, note="", cases=None, instances=None):
+              assumed=False, note="", cases=None, instances=None, comp_types=None):
         """lemma over spec functions.  vars: name->Ty; hyps/goal: expression strings; induct: name of the variable
         (ListT/DictT) for structural induction -- the hypothesis is instantiated for the tail, universally over the
         other variables listed in `general`.  assumed=True: an axiom about an opaque (library) function; it is NOT proved,
         never counted as an obligation, and is listed among the assumptions of every evidence file that uses it."""
         self.lemmas.append(dict(name=name, vars=vars, hyps=list(hyps), goal=goal, induct=induct, hints=list(hints),
                                 properties=list(properties), use=list(use), pattern=pattern, general=general, fuel=fuel, ih=ih,
-                                assumed=assumed, note=note, cases=cases, instances=instances))
+                                assumed=assumed, note=note, cases=cases, instances=instances, comp_types=comp_types))
 
     def registry(self):
         return {(c.file, c.qual): c for c in self.contracts}
